@@ -418,4 +418,21 @@ SELFTEST = [
     dict(id='decrement-december-length', file='src/ace_time/local_date_mutation.h', find='      day = 31;', replace='      day = 30;', rule='R4', construct='decrementOneDay'),
     dict(id='python-month-table', file='tools/tzdb/transformer.py', find='DAYS_IN_MONTH = [31, 28, 31, 30, 31, 30, 31, 31, 30, 31, 30, 31]',
          replace='DAYS_IN_MONTH = [31, 28, 31, 30, 31, 30, 31, 31, 30, 31, 31, 30]', rule='R2'),
+    # the write-back moved into the destructor of a scope guard: quiet when it stores all three fields, reported when it forgets one
+    dict(id='write-back-in-a-scope-guard-silent', edits=[
+        dict(file='src/ace_time/local_date_mutation.h',
+             find='inline void incrementOneDay(LocalDate& ld) {\n  uint8_t day = ld.day() + 1;\n  uint8_t month = ld.month();\n  int8_t yearTiny = ld.yearTiny();\n',
+             replace='struct DayFields {\n  explicit DayFields(LocalDate& d): day(d.day()), month(d.month()), yearTiny(d.yearTiny()), target(d) {}\n'
+                     '  ~DayFields() { target.day(day); target.month(month); target.yearTiny(yearTiny); }\n  uint8_t day; uint8_t month; int8_t yearTiny; LocalDate& target;\n};\n\n'
+                     'inline void incrementOneDay(LocalDate& ld) {\n  DayFields f(ld);\n  uint8_t& day = f.day;\n  uint8_t& month = f.month;\n  int8_t& yearTiny = f.yearTiny;\n  day++;\n'),
+        dict(file='src/ace_time/local_date_mutation.h', find='      yearTiny++;\n    }\n  }\n  ld.day(day);\n  ld.month(month);\n  ld.yearTiny(yearTiny);\n}',
+             replace='      yearTiny++;\n    }\n  }\n}')], expect='silent'),
+    dict(id='scope-guard-forgets-the-month', edits=[
+        dict(file='src/ace_time/local_date_mutation.h',
+             find='inline void incrementOneDay(LocalDate& ld) {\n  uint8_t day = ld.day() + 1;\n  uint8_t month = ld.month();\n  int8_t yearTiny = ld.yearTiny();\n',
+             replace='struct DayFields {\n  explicit DayFields(LocalDate& d): day(d.day()), month(d.month()), yearTiny(d.yearTiny()), target(d) {}\n'
+                     '  ~DayFields() { target.day(day); target.yearTiny(yearTiny); }\n  uint8_t day; uint8_t month; int8_t yearTiny; LocalDate& target;\n};\n\n'
+                     'inline void incrementOneDay(LocalDate& ld) {\n  DayFields f(ld);\n  uint8_t& day = f.day;\n  uint8_t& month = f.month;\n  int8_t& yearTiny = f.yearTiny;\n  day++;\n'),
+        dict(file='src/ace_time/local_date_mutation.h', find='      yearTiny++;\n    }\n  }\n  ld.day(day);\n  ld.month(month);\n  ld.yearTiny(yearTiny);\n}',
+             replace='      yearTiny++;\n    }\n  }\n}')], rule='R4', construct='incrementOneDay'),
 ]
